@@ -149,7 +149,7 @@ def rand_data_items(r, n, labels):
 STR_POOLS = {
     'ascii': 'abcXYZ 019 !"#$%&\'()*+,-./:;<=>?@[]^_`{|}~\t  ',
     'latin1': 'éèüñßÆøÿ¡¿£©®±µ¶',
-    'bmp': '中文日本語한국어ΩλЖक€→√∞',
+    'bmp': '中文日本語한국어ΩλЖक€→√∞\ufeff\u200b',
     'astral': '😀🚀𝄞𐍈🂡',
     # text that is not in Unicode normal form C: base letter + combining mark, marks out of canonical order, singletons, jamo
     'nonnfc': ['e\u0301', 'a\u0323\u0302', 'a\u0302\u0323', '\u212b', '\u2126', '\u1100\u1161', 'n\u0303', '\u2000'],
